@@ -1,4 +1,4 @@
 SPECIFICATION Spec
-CONSTANTS N = 4  Objs = 2  MaxParts = 2  MaxStores = 3  Fix <- FixNone  SameSecond = FALSE
+CONSTANTS N = 4  Objs = 2  MaxParts = 2  MaxStores = 3  Fix <- FixCur  SameSecond = FALSE
 INVARIANTS CrashSafeUpToKnown SurvivesShutdownUpToStale
 CHECK_DEADLOCK FALSE
